@@ -13,6 +13,7 @@ EXPLANATION = (
     "NetworkAddress are both derived over the same fields; (4) NO-PANIC — the parsers (from_str, from_four_words) contain no "
     "undischarged panic site (constant indexing only under a dominating length test)."
     ' SERDE field-for-field: the derived Deserialize builds NetworkAddress directly from the decoded fields (no #[serde(try_from / from / into)] detour through hand-written code).'
+    ' ROUND-TRIP parsed-as-is: every NetworkAddress::new in from_str / from_four_words is given the parse result itself (parse::<SocketAddr>(), or SocketAddr::new(parsed ip, parsed port)), not passed through a rewriting step or modified in place.'
 )
 NOT_DECIDED = "the four-word codec round trip over the 2^48 address space (external crate four-word-networking), e.g. 255.255.255.255:65535"
 ASSUMPTIONS = ["std SocketAddr / IpAddr FromStr accept exactly their Display output", "flows through collections are followed field-insensitively"]
